@@ -1459,6 +1459,7 @@ class _Prepass(ast.NodeTransformer):
         self.nonneg = nonneg   # names that evidently hold a non-negative int (index of an enumerate loop that is never rebound)
         self.leaking = leaking  # loop variables that are read outside the body of a loop that binds them
         self.read_outside = read_outside or {}   # id(for loop) -> names read somewhere outside that loop
+        self.int_names = frozenset()             # names that only ever hold an element of a range(...)
 
     def _stmts(self, body):
         out = []
@@ -1560,7 +1561,18 @@ class _Prepass(ast.NodeTransformer):
 
     def visit_Call(self, node):
         self.generic_visit(node)
-        return _min_max_as_ifexp(node)
+        node = _min_max_as_ifexp(node)
+        if isinstance(node, ast.Call):
+            node = _format_call_as_fstring(node)
+        return node
+
+    def visit_BinOp(self, node):
+        self.generic_visit(node)
+        return _percent_as_fstring(node, self.nonneg | self.int_names)
+
+    def visit_JoinedStr(self, node):
+        self.generic_visit(node)
+        return _tidy_fstring(node, self.nonneg | self.int_names)
 
     def generic_visit(self, node):
         for fld, val in ast.iter_fields(node):
@@ -2249,10 +2261,117 @@ def _reads_outside_loops(fn) -> dict:
     return out
 
 
+def _range_vars(fn) -> frozenset:
+    """names bound only as the variable of `for i in range(...)` loops / comprehension clauses of fn"""
+    stores, cand = {}, {}
+    for n in ast.walk(fn):
+        if isinstance(n, ast.Name) and isinstance(n.ctx, (ast.Store, ast.Del)):
+            stores[n.id] = stores.get(n.id, 0) + 1
+        elif isinstance(n, ast.arg):
+            stores[n.arg] = stores.get(n.arg, 0) + 10
+        if isinstance(n, (ast.For, ast.comprehension)) and isinstance(n.target, ast.Name) and isinstance(n.iter, ast.Call) and isinstance(n.iter.func, ast.Name) \
+                and n.iter.func.id == "range" and not n.iter.keywords:
+            cand[n.target.id] = cand.get(n.target.id, 0) + 1
+    if any(isinstance(n, ast.Name) and n.id == "range" and isinstance(n.ctx, ast.Store) for n in ast.walk(fn)):
+        return frozenset()
+    return frozenset(nm for nm, k in cand.items() if stores.get(nm) == k)
+
+
+def _fval(expr, conversion=-1, spec=None):
+    return ast.FormattedValue(value=expr, conversion=conversion, format_spec=spec)
+
+
+def _percent_as_fstring(node, int_names):
+    """'..%s..%r..%d..' % (a, b, c) with only bare %s / %r / %d (the latter for evidently integer values) / %% is the f-string f'..{a}..{b!r}..{c}..'"""
+    import re
+    if not (isinstance(node.op, ast.Mod) and isinstance(node.left, ast.Constant) and isinstance(node.left.value, str)):
+        return node
+    tmpl = node.left.value
+    parts = re.split(r"(%[^%]|%%)", tmpl)
+    specs = [p_ for p_ in parts if len(p_) == 2 and p_[0] == "%" and p_ != "%%"]
+    if not specs or any(p_ not in ("%s", "%r", "%d") for p_ in specs) or re.search(r"%(?![srd])", tmpl.replace("%%", "")):
+        return node
+    right = node.right
+    if isinstance(right, ast.Tuple):
+        args = list(right.elts)
+    elif len(specs) == 1 and not isinstance(right, (ast.Dict, ast.Starred)):
+        args = [right]
+    else:
+        return node
+    if len(args) != len(specs) or any(isinstance(a, ast.Starred) for a in args):
+        return node
+    values = []
+    k = 0
+    for p_ in parts:
+        if p_ == "%%":
+            values.append(ast.Constant(value="%"))
+        elif len(p_) == 2 and p_[0] == "%":
+            a = args[k]
+            k += 1
+            if p_ == "%d":
+                if not _int_evident(a, int_names):
+                    return node
+                values.append(_fval(a))
+            else:
+                values.append(_fval(a, 114 if p_ == "%r" else -1))
+        elif p_:
+            values.append(ast.Constant(value=p_))
+    return _tidy_fstring(ast.fix_missing_locations(ast.copy_location(ast.JoinedStr(values=values), node)), int_names)
+
+
+def _format_call_as_fstring(node):
+    """'.. {} .. {} ..'.format(a, b) with only auto-numbered bare fields is f'.. {a} .. {b} ..'"""
+    import re
+    f = node.func
+    if not (isinstance(f, ast.Attribute) and f.attr == "format" and isinstance(f.value, ast.Constant) and isinstance(f.value.value, str) and not node.keywords
+            and not any(isinstance(a, ast.Starred) for a in node.args)):
+        return node
+    tmpl = f.value.value
+    parts = re.split(r"(\{\{|\}\}|\{\}|\{!r\}|\{!s\})", tmpl)
+    if any(("{" in p_ or "}" in p_) and p_ not in ("{{", "}}", "{}", "{!r}", "{!s}") for p_ in parts):
+        return node
+    fields = [p_ for p_ in parts if p_ in ("{}", "{!r}", "{!s}")]
+    if len(fields) != len(node.args) or not fields:
+        return node
+    values, k = [], 0
+    for p_ in parts:
+        if p_ in ("{{", "}}"):
+            values.append(ast.Constant(value=p_[0]))
+        elif p_ in ("{}", "{!r}", "{!s}"):
+            values.append(_fval(node.args[k], 114 if p_ == "{!r}" else -1))
+            k += 1
+        elif p_:
+            values.append(ast.Constant(value=p_))
+    return _tidy_fstring(ast.fix_missing_locations(ast.copy_location(ast.JoinedStr(values=values), node)), frozenset())
+
+
+def _tidy_fstring(node, int_names):
+    """{x!s} is {x}; {str(x)} is {x}; {i:d} for an evidently integer i is {i}; neighbouring literal pieces are one piece"""
+    values = []
+    for v in node.values:
+        if isinstance(v, ast.FormattedValue):
+            conv, spec, val = v.conversion, v.format_spec, v.value
+            if conv == 115:
+                conv = -1
+            if conv == -1 and spec is None and isinstance(val, ast.Call) and isinstance(val.func, ast.Name) and val.func.id == "str" and len(val.args) == 1 and not val.keywords:
+                val = val.args[0]
+            if spec is not None and isinstance(spec, ast.JoinedStr) and len(spec.values) == 1 and isinstance(spec.values[0], ast.Constant) and spec.values[0].value == "d" \
+                    and conv == -1 and _int_evident(val, int_names):
+                spec = None
+            v = ast.FormattedValue(value=val, conversion=conv, format_spec=spec)
+        if isinstance(v, ast.Constant) and values and isinstance(values[-1], ast.Constant) and isinstance(v.value, str) and isinstance(values[-1].value, str):
+            values[-1] = ast.Constant(value=values[-1].value + v.value)
+        else:
+            values.append(v)
+    return ast.fix_missing_locations(ast.copy_location(ast.JoinedStr(values=values), node))
+
+
 def prepass(fn):
     import copy
     fn2 = copy.deepcopy(fn)
-    _Prepass(_enumerate_indices(fn2), _leaking_loop_names(fn2), _reads_outside_loops(fn2)).generic_visit(fn2)
+    pp = _Prepass(_enumerate_indices(fn2), _leaking_loop_names(fn2), _reads_outside_loops(fn2))
+    pp.int_names = _range_vars(fn2)
+    pp.generic_visit(fn2)
     return fn2
 
 
